@@ -588,6 +588,99 @@ func (si *setInterp) sortedAt(v ssa.Value, at ssa.Instruction) bool {
 	return true
 }
 
+// sortedThrough: v is sorted when `at` executes in frame fr: sorted in this function before `at`, or v is a parameter that
+// nothing in this function modifies before `at` and that the (unique) caller passes sorted.
+func (si *setInterp) sortedThrough(v ssa.Value, at ssa.Instruction, fr *sframe, depth int) bool {
+	if si.sortedAt(v, at) {
+		return true
+	}
+	prm, ok := v.(*ssa.Parameter)
+	if !ok || fr == nil || fr.call == nil || depth > 4 || prm.Referrers() == nil {
+		return false
+	}
+	idx := -1
+	for k, q := range fr.fn.Params {
+		if q == prm {
+			idx = k
+		}
+	}
+	if idx < 0 || idx >= len(fr.call.Call.Args) || len(fr.call.Call.Args) != len(fr.fn.Params) {
+		return false
+	}
+	// nothing between entry and `at` may reorder or rewrite the list
+	for _, ref := range *prm.Referrers() {
+		if ref == at {
+			continue
+		}
+		switch x := ref.(type) {
+		case *ssa.DebugRef:
+		case ssa.CallInstruction:
+			if si.readerCall(x) {
+				continue
+			}
+			// a sibling emitter (reads the list) is harmless; anything else that can run before `at` is not
+			if in := ref; in.Block() != nil && (in == at || instrReachesNoRepeat(in, at, nil)) {
+				if f := flow.Callee(x); f != nil && si.readOnlyParam(f, x, prm) {
+					continue
+				}
+				return false
+			}
+		case *ssa.IndexAddr:
+			for _, r2 := range *x.Referrers() {
+				if st, ok := r2.(*ssa.Store); ok && st.Addr == ssa.Value(x) {
+					return false
+				}
+			}
+		case *ssa.Store:
+			if x.Val != ssa.Value(prm) {
+				return false
+			}
+		case *ssa.Phi, *ssa.Slice, *ssa.MakeClosure:
+			return false
+		}
+	}
+	return si.sortedThrough(fr.call.Call.Args[idx], fr.call, fr.parent, depth+1)
+}
+
+// readOnlyParam: the callee only reads the slice it receives as `arg` (length, elements, stored into a value that is
+// marshalled or executed as template data).
+func (si *setInterp) readOnlyParam(f *ssa.Function, c ssa.CallInstruction, arg ssa.Value) bool {
+	if len(f.Blocks) == 0 || len(f.Params) != len(c.Common().Args) {
+		return false
+	}
+	for k, a := range c.Common().Args {
+		if a != arg {
+			continue
+		}
+		prm := f.Params[k]
+		if prm.Referrers() == nil {
+			continue
+		}
+		for _, ref := range *prm.Referrers() {
+			switch x := ref.(type) {
+			case *ssa.DebugRef, *ssa.Index, *ssa.Range:
+			case *ssa.IndexAddr:
+				for _, r2 := range *x.Referrers() {
+					if st, ok := r2.(*ssa.Store); ok && st.Addr == ssa.Value(x) {
+						return false
+					}
+				}
+			case *ssa.Store:
+				if x.Val != ssa.Value(prm) {
+					return false
+				}
+			case ssa.CallInstruction:
+				if !si.readerCall(x) {
+					return false
+				}
+			default:
+				return false
+			}
+		}
+	}
+	return true
+}
+
 // readerCall: the call does not modify a slice argument.
 func (si *setInterp) readerCall(c ssa.CallInstruction) bool {
 	if bi, ok := c.Common().Value.(*ssa.Builtin); ok {
